@@ -73,12 +73,11 @@ def mc_list(quick):
                 ("2c_prio_mux", C(nconn=2, feat="prio,dialfail,async"), 900),
                 ("2c_prio_single", C(nconn=2, single=True, feat="prio,fail"), 900)]
     return [("1c_all_async", C(feat="fail,dialfail,time,reset,async"), 1800),
-            ("1c_2x2_all_async", C(up=2, down=2, feat="fail,dialfail,time,reset,async"), 3000),
-            ("1c_single_all_async", C(up=2, down=1, single=True, feat="fail,dialfail,time,reset,async"), 3000),
+            ("1c_2x1_all_async", C(up=2, down=1, feat="fail,dialfail,time,reset,async"), 3000),
+            ("1c_single_2x1_all_async", C(up=2, down=1, single=True, feat="fail,dialfail,time,reset,async"), 3000),
             ("2c_free", C(nconn=2), 3000),
-            ("2c_prio_mux_all", C(nconn=2, maxsess=3, feat="prio,fail,dialfail,time,async"), 3000),
-            ("2c_prio_single_all", C(nconn=2, single=True, maxsess=2, feat="prio,fail,dialfail,time,async"), 3000),
-            ("3c_prio_mux", C(nconn=3, feat="prio,fail"), 3000)]
+            ("2c_prio_mux_all", C(nconn=2, feat="prio,fail,dialfail,time,reset,async"), 3600),
+            ("2c_prio_single_all", C(nconn=2, single=True, feat="prio,fail,dialfail,time,async"), 3600)]
 
 
 def gen_list(quick):
